@@ -291,8 +291,9 @@ def run_property(prop, tier, seed, replay=None, only_case=None):
     extra = getattr(mod, "evidence_extra", None)
     if extra:
         ev["coverage"].update(extra())
-    os.makedirs(os.path.join(VERIF, "evidence"), exist_ok=True)
-    json.dump(ev, open(os.path.join(VERIF, "evidence", f"{prop}.json"), "w"), indent=1, default=str)
+    if not os.environ.get("GT_DEBUG_NO_PROOFS"):    # development runs never write evidence
+        os.makedirs(os.path.join(VERIF, "evidence"), exist_ok=True)
+        json.dump(ev, open(os.path.join(VERIF, "evidence", f"{prop}.json"), "w"), indent=1, default=str)
     for p in printed:
         print(p)
     for n in out["notes"]:
